@@ -199,14 +199,9 @@ def duplicate_handling_keyed_like_naming(ctx: Ctx) -> None:
     rc = ctx.repo.func("xsdata.codegen.handlers.rename_duplicate_classes:RenameDuplicateClasses.run")
     gb = [c for c in calls_in(rc.node) if call_name_of(c) == "group_by" and len(c.args) == 2]
     def _key_is_slug(k: ast.expr) -> bool:
-        if isinstance(k, ast.Lambda):
-            return isinstance(k.body, ast.Call) and call_name_of(k.body) == "alnum"
-        if isinstance(k, ast.Name):  # a local def used as key function
-            for d in ast.walk(rc.node):
-                if isinstance(d, ast.FunctionDef) and d.name == k.id:
-                    rv = [r.value for r in ast.walk(d) if isinstance(r, ast.Return)]
-                    return bool(rv) and all(isinstance(v, ast.Call) and call_name_of(v) == "alnum" for v in rv)
-        return False
+        """The grouping key - a lambda, a nested def, a module function or a method reference - returns text.alnum(...) on every path."""
+        kl = callable_leaves(ctx.repo, rc, k)
+        return bool(kl) and all(re.fullmatch(r"(text\.)?alnum\(.*\)", t) for t, _ in kl)
 
     ok = bool(gb) and all(_key_is_slug(c.args[1]) for c in gb)
     ctx.ob("duplicate classes are grouped by text.alnum(name | qname)", ok, at=rc, construct="class grouping key", msg="class grouping key changed")
